@@ -367,6 +367,12 @@ def one_fingerprint(job):
         elif job["kind"] == "bench":
             sc = nasim.make_benchmark_scenario(job["name"], seed=job["seed"])
             out.append(fingerprint(sc))
+        elif job["kind"] == "genseed":
+            # the seed handed to generate() itself, as a Python int or as the NumPy integer numpy.random.seed also accepts
+            sd_ = {"int": int, "np.int64": np.int64, "np.uint32": np.uint32}[job["seed_type"]](job["seed"])
+            np.random.seed(12345)
+            sc = nasim.generate_scenario(seed=sd_, **job["params"])
+            out.append(fingerprint(sc))
         else:   # seeded trajectory on a benchmark, or on a document after other environments were built
             from nasim.envs.environment import NASimEnv
             if job["kind"] == "trajsd":
@@ -703,6 +709,11 @@ def run(ctx, spec):
             jobs.append(dict(common, before=[repr(scen.permuted_sibling(sd0))], same_as=i0))
             jobs.append(dict(common, before=[repr(scen.random_sd(rng, max_subnets=3, max_size=2)),
                                              repr(scen.permuted_sibling(sd0))], same_as=i0))
+        for name in list(bench)[:3]:
+            i0 = len(jobs)
+            jobs.append(dict(kind="genseed", params=bench[name], seed=7, seed_type="int"))
+            jobs.append(dict(kind="genseed", params=bench[name], seed=7, seed_type="np.int64", same_as=i0))
+            jobs.append(dict(kind="genseed", params=bench[name], seed=7, seed_type="np.uint32", same_as=i0))
         # the same seeded run on an environment object with a past (seeded Gymnasium resets, earlier episodes):
         # with the global generator seeded identically the trajectory is the one of a fresh object
         for name in list(bench)[:4]:
